@@ -1,0 +1,19 @@
+//go:build verif
+
+package generator
+
+import "context"
+
+// Verification hook (build tag verif): re-exports existing identifiers only.
+
+func (s *Scheduler) VerifC45CheckProtocols() { s.checkProtocols() }
+
+func (s *Scheduler) VerifC45Compute(workerFn func(context.Context)) { s.compute(workerFn) }
+
+// VerifC45State reads the scheduler state under its own mutex:
+// (state == working, len(workers), len(stops)).
+func (s *Scheduler) VerifC45State() (bool, int, int) {
+	s.workMutex.Lock()
+	defer s.workMutex.Unlock()
+	return s.state == working, len(s.workers), len(s.stops)
+}
